@@ -100,7 +100,6 @@ type roles struct {
 	why      string
 }
 
-var rolesCache = map[*Program]*roles{}
 
 // args builds the argument vector of a grammar function: receiver, then by type Node -> left, int -> prec, bool -> flag, string -> name.
 func (d *parserDom) argsFor(fn *ssa.Function, left AV, prec int64, flag bool) []AV {
@@ -125,11 +124,11 @@ func (d *parserDom) argsFor(fn *ssa.Function, left AV, prec int64, flag bool) []
 }
 
 func (d *parserDom) inferRoles() *roles {
-	if rc, ok := rolesCache[d.p]; ok {
-		return rc
+	if d.p.memoRoles != nil {
+		return d.p.memoRoles
 	}
 	rl := &roles{byFn: map[*ssa.Function]string{}}
-	rolesCache[d.p] = rl
+	d.p.memoRoles = rl
 	var members []*ssa.Function
 	for m := range d.scc {
 		members = append(members, m)
@@ -1117,14 +1116,13 @@ func checkKeyedList(line string, isLet, child bool) string {
 
 // literalHelpers finds the functions that decode the text of the three literal tokens, by what the primary-expression
 // parser calls for each of them (not by name): "string", "quoted", "json".
-var literalHelpersCache = map[*Program]map[string]*ssa.Function{}
 
 func literalHelpers(p *Program) map[string]*ssa.Function {
-	if m, ok := literalHelpersCache[p]; ok {
-		return m
+	if p.memoLitHelpers != nil {
+		return p.memoLitHelpers
 	}
 	out := map[string]*ssa.Function{}
-	literalHelpersCache[p] = out
+	p.memoLitHelpers = out
 	d := newParserDom(p)
 	if d.why != "" {
 		return out
